@@ -239,6 +239,30 @@ impl Seq {
         c
     }
 
+    /// An acknowledgement sent as a control message on the StreamingPull stream that is open on
+    /// `sub` (ack IDs belong to the subscription, not to the consumer that received them). There is
+    /// no reply; the step ends when the server has nothing left to run.
+    pub async fn stream_ack(&mut self, sub: &str, ids: &[String]) -> bool {
+        let now = self.now();
+        let sent = match self.streams.get(sub) {
+            Some(h) if h.ended().is_none() => h.send(ids, &[], &[]),
+            _ => false,
+        };
+        self.steps.push(format!("stream_ack({},{:?}) sent={}@{}ms", short(sub), ids, sent, now / MS));
+        if sent {
+            self.w.barrier().await;
+            self.drain_streams();
+            let still_open = self.streams.get(sub).map(|h| h.ended().is_none()).unwrap_or(false);
+            if still_open {
+                self.m.acked(sub, ids, now);
+            } else {
+                self.steps.push("  (the stream ended on that control message)".into());
+            }
+        }
+        self.after_step(if sent { "Ack" } else { "Rejected" }).await;
+        sent
+    }
+
     /// An acknowledgement followed - without letting anything else run - by a jump of the clock:
     /// time passes while whatever the call left queued is still queued. An ack that has returned
     /// OK before the deadline is final even if the deadline passes right afterwards.
